@@ -1497,6 +1497,7 @@ def explore(ctx):
     more = c05_more.cases(ctx.quick)
     more.sort(key=lambda c: (len(json.dumps(c)), json.dumps(c, sort_keys=True)))
     mstat = {b: {"cases": 0, "parses": 0, "accepted": 0, "rejected": 0, "some_acc": 0, "all_rej": 0} for b in ("undef", "hist", "flags")}
+    fresh_keys = set()
     for r in ctx.pmap(work_more, more):
         st = mstat[r["case"]["block"]]
         st["cases"] += 1
@@ -1504,7 +1505,9 @@ def explore(ctx):
             st[k] += r[k]
         st["some_acc"] += bool(r["accepted"])
         st["all_rej"] += not r["accepted"]
+        fresh_keys.update(r["fresh_keys"])
         ctx.deviations_from(r["case"], r["devs"])
+    mstat["hist"]["parses"] += len(fresh_keys)  # distinct reference parses on directly built parsers (cached per worker)
     n_more = sum(st["cases"] for st in mstat.values())
     parses_more = sum(st["parses"] for st in mstat.values())
     for c in (cases[0], cases[len(cases) // 2], cases[-1]):
